@@ -120,7 +120,9 @@ def kernel_comparators(tier, seed, params):
             raise Untranslatable("percent converter is not a lambda")
         pf = T.ev(lam.body, {lam.args.args[0].arg: IntBV(P), "float": None})
         inst = ModelFieldsPercentMatch.__new__(ModelFieldsPercentMatch)
-        inst.percent_fields = pf
+        Ti = Translator(lenwidth=W)
+        Ti.call_function(ModelFieldsPercentMatch.__init__, [inst, pf])       # what the constructor stores for this threshold
+        inst.percent_fields = Ti.last_env["self.percent_fields"]
         impl["percent"] = py2smt.to_bool(T.call_function(ModelFieldsPercentMatch.cmp, [inst, SetBV(a), SetBV(b)]))
         dflt = ModelFieldsPercentMatch()
         impl["percent_default"] = py2smt.to_bool(T.call_function(ModelFieldsPercentMatch.cmp, [dflt, SetBV(a), SetBV(b)]))
@@ -128,7 +130,9 @@ def kernel_comparators(tier, seed, params):
         if convn is not int:
             raise Untranslatable("number converter is not int")
         instn = ModelFieldsNumberMatch.__new__(ModelFieldsNumberMatch)
-        instn.number_fields = n
+        Tn = Translator(lenwidth=W)
+        Tn.call_function(ModelFieldsNumberMatch.__init__, [instn, n])
+        instn.number_fields = Tn.last_env["self.number_fields"]
         impl["number"] = py2smt.to_bool(T.call_function(ModelFieldsNumberMatch.cmp, [instn, SetBV(a), SetBV(b)]))
         impl["number_default"] = py2smt.to_bool(T.call_function(ModelFieldsNumberMatch.cmp, [ModelFieldsNumberMatch(), SetBV(a), SetBV(b)]))
         # ANY rule of the registry
@@ -137,6 +141,12 @@ def kernel_comparators(tier, seed, params):
             ModelRegistry._models_cmp_fn, [reg, "model_a", "model_b"],
             extra_env={"set(model_a.type.keys())": SetBV(a), "set(model_b.type.keys())": SetBV(b)}))
         spec["any"] = z3.Or(spec["percent"], spec["number"])
+        # the ANY rule with a single comparator must be that comparator (no shortcut may add pairs)
+        for nm, c in (("any_only_number", instn), ("any_only_percent", inst), ("any_only_equals", ModelFieldsEquals())):
+            impl[nm] = py2smt.to_bool(T.call_function(
+                ModelRegistry._models_cmp_fn, [ModelRegistry(c), "model_a", "model_b"],
+                extra_env={"set(model_a.type.keys())": SetBV(a), "set(model_b.type.keys())": SetBV(b)}))
+            spec[nm] = spec[nm.replace("any_only_", "")]
         dreg = ModelRegistry()
         impl["any_default"] = py2smt.to_bool(T.call_function(
             ModelRegistry._models_cmp_fn, [dreg, "model_a", "model_b"],
@@ -200,6 +210,9 @@ def kernel_comparators(tier, seed, params):
     res["validation"] = {"points": len(pts), "disagreements": bad}
     if bad:
         return res
+
+    def _unused():
+        pass
 
     def model_case(kind, m, default=False):
         av = m.eval(a, model_completion=True).as_long()
@@ -498,20 +511,20 @@ def scen_real(ch, params, out):
 def parts(tier):
     if tier == "quick":
         return [
-            SMT("cmp_equals_number", "vflib.props.c05:kernel_comparators", {"K": 16, "W": 8, "timeout": 120, "kinds": ["equals", "number", "number_default"]}, timeout=400),
+            SMT("cmp_equals_number", "vflib.props.c05:kernel_comparators", {"K": 16, "W": 8, "timeout": 120, "kinds": ["equals", "number", "number_default", "any_only_number", "any_only_equals"]}, timeout=400),
             SMT("cmp_percent", "vflib.props.c05:kernel_comparators", {"K": 16, "W": 8, "timeout": 150, "kinds": ["percent"]}, timeout=400),
             SMT("cmp_percent_default", "vflib.props.c05:kernel_comparators", {"K": 16, "W": 8, "timeout": 150, "kinds": ["percent_default", "any_default"]}, timeout=400),
-            SMT("cmp_any", "vflib.props.c05:kernel_comparators", {"K": 16, "W": 8, "timeout": 150, "kinds": ["any"]}, timeout=400),
+            SMT("cmp_any", "vflib.props.c05:kernel_comparators", {"K": 16, "W": 8, "timeout": 150, "kinds": ["any", "any_only_percent"]}, timeout=600),
             CH("table4", "vflib.props.c05:scen_table", {"models": 4}, shards=12, timeout=170, path_timeout=30),
             CH("table2x2rounds", "vflib.props.c05:scen_table", {"models": 2, "rounds": 2, "wraps": True}, shards=2, timeout=170, path_timeout=30),
             CH("real", "vflib.props.c05:scen_real", {"keys": 4, "policies": ["default", "percent_50", "number_2"]}, shards=3, timeout=170, path_timeout=30),
             CH("real3", "vflib.props.c05:scen_real", {"keys": 3}, shards=8, timeout=170, path_timeout=30),
         ]
     return [
-        SMT("cmp_equals_number", "vflib.props.c05:kernel_comparators", {"K": 64, "W": 8, "timeout": 600, "cross_check": True, "kinds": ["equals", "number", "number_default"]}, timeout=3000),
+        SMT("cmp_equals_number", "vflib.props.c05:kernel_comparators", {"K": 64, "W": 8, "timeout": 600, "cross_check": True, "kinds": ["equals", "number", "number_default", "any_only_number", "any_only_equals"]}, timeout=3000),
         SMT("cmp_percent", "vflib.props.c05:kernel_comparators", {"K": 64, "W": 8, "timeout": 1500, "cross_check": True, "kinds": ["percent"]}, timeout=4000),
         SMT("cmp_percent_default", "vflib.props.c05:kernel_comparators", {"K": 64, "W": 8, "timeout": 1500, "cross_check": True, "kinds": ["percent_default", "any_default"]}, timeout=4000),
-        SMT("cmp_any", "vflib.props.c05:kernel_comparators", {"K": 64, "W": 8, "timeout": 1500, "cross_check": True, "kinds": ["any"]}, timeout=4000),
+        SMT("cmp_any", "vflib.props.c05:kernel_comparators", {"K": 64, "W": 8, "timeout": 1500, "cross_check": True, "kinds": ["any", "any_only_percent"]}, timeout=6000),
         CH("table5", "vflib.props.c05:scen_table", {"models": 5, "wraps": False}, shards=16, timeout=1500, path_timeout=30),
         CH("table4wraps", "vflib.props.c05:scen_table", {"models": 4, "wraps": True}, shards=16, timeout=1500, path_timeout=30),
         CH("table2x2rounds", "vflib.props.c05:scen_table", {"models": 2, "rounds": 2, "wraps": True}, shards=2, timeout=600, path_timeout=30),
